@@ -242,7 +242,7 @@ def gen_valid(chk):
     # big payloads (BTSD length heads of 3 and 5 octets); the model side is compared through digests (big_suite)
     for size in ([4000, 65536] if chk.quick() else [4000, 65535, 65536, 65537, 200000]):
         cases.append(('big', bg.gen_bundle(rng, payload_sizes=(size,), admin=False, n_ext=1, **safe)))
-    for _ in range(500 if chk.quick() else 20000):
+    for _ in range(400 if chk.quick() else 20000):
         cases.append(('random', bg.gen_bundle(rng, **safe)))
     return cases
 
@@ -377,6 +377,8 @@ def gen_malformed(chk):
         with_admin(5, 'administrative record not an array')
         with_admin([1], 'administrative record with 1 item')
         with_admin([2, 1.5], 'administrative record with float content')
+        with_admin([3, b'\x07\x9d'], 'administrative record of unbound type with byte-string content')
+        with_admin([3, b'\xff'], 'administrative record of unbound type with byte-string content (not CBOR)')
         spec2 = dict(adm)
         spec2['blocks'] = [dict(adm['blocks'][-1], data='0001')]
         out.append(('admin flag with a payload that is not one CBOR item', bg.encode(spec2)))
@@ -390,12 +392,11 @@ def gen_malformed(chk):
 # ---------------------------------------------------------------------------------------------- driver
 
 def coq_octets(data):
-    from common import coq_bytes
-    return coq_bytes(data)
+    return bg._coq_bytes(data)
 
 
 BIG_ENC = ('(fun b : bundle => let o := impl_encode_bundle b in '
-           '(N.of_nat (List.length o), DTN.Lib.Crc.crc32c o, [bytes_eqb o (impl_encode_bundle (with_crc_bundle b)); wf_bundleb b]))')
+           '(N.of_nat (List.length o), DTN.Lib.Crc.crc32c o, [bytes_eqb o (encode_bundle (with_crc_bundle (impl_norm_bundle b))); wf_bundleb b]))')
 BIG_DEC = ('(fun bs : bytes => match decode_bundle bs with '
            '| Some b => Some (ren_primary b.(prim), map (fun k => (fst (fst (ren_cblock k)), N.of_nat (List.length (btsd k)), '
            'DTN.Lib.Crc.crc32c (btsd k), ren_opt (bcrc k))) b.(blocks), bytes_eqb (impl_encode_bundle b) bs) | None => None end)')
@@ -450,6 +451,22 @@ def big_suite(chk, cases, pending):
     return bad
 
 
+# one evaluation per case: run_encode on the bundle and run_decode on the independent encoder's octets; octet
+# strings equal to one already printed are printed as [] (printing long lists dominates the cost)
+RUN_CASE = '''
+Definition run_case (p : bundle * bytes) :=
+  let (b, bs) := p in
+  match run_encode b with
+  | (o1, o2, fl) =>
+      (o1, (if bytes_eqb o1 o2 then [] else [o2]), fl,
+       match run_decode bs with
+       | Some (rb, r, fl') => [(rb, (if bytes_eqb r bs then [] else [r]), fl')]
+       | None => []
+       end)
+  end.
+'''
+
+
 def run_streams(chk, cases, pending):
     ''' enc/dec correspondence + oracle over (label, spec) cases.
     :return: (agree_enc, agree_dec, first disagreement text) '''
@@ -457,8 +474,21 @@ def run_streams(chk, cases, pending):
     for (label, spec) in cases:
         raw = bg.encode(spec)
         impl.append(dict(enc=impl_encode_modes(spec), dec=impl_decode(raw), raw=raw))
-    enc_model = chk.coq_eval('enc', ['Lib.Cbor', 'Model.Bundle'], [bg.coq_bundle(spec) for (_l, spec) in cases], 'run_encode')
-    dec_model = chk.coq_eval('dec', ['Lib.Cbor', 'Model.Bundle'], [bg.coq_encoded(spec) for (_l, spec) in cases], 'run_decode')
+    tick(chk, 'impl side of %d cases' % len(cases))
+    both = chk.coq_eval('case', ['Lib.Cbor', 'Model.Bundle'],
+                        ['(%s, %s)' % (bg.coq_bundle(spec), bg.coq_encoded(spec)) for (_l, spec) in cases],
+                        'run_case', chunk=64, prelude=RUN_CASE)
+    enc_model = []
+    dec_model = []
+    for ((o1, o2, flags, dec), obs) in zip(both, impl):
+        enc_model.append((o1, (o2[0] if o2 else o1), flags))
+        if not dec:
+            dec_model.append(None)
+        else:
+            val = list(dec[0])
+            val[5] = val[5][0] if val[5] else list(obs['raw'])
+            dec_model.append(('Some', tuple(val)))
+    tick(chk, 'coq enc+dec')
     bad_enc = []
     bad_dec = []
     for ((label, spec), obs, menc, mdec) in zip(cases, impl, enc_model, dec_model):
@@ -491,10 +521,11 @@ def run_streams(chk, cases, pending):
                 if classify(spec) != SIG_REASON:
                     bad_enc.append('%s: building via_payload=%s update_crc=%s raises %s' % (label, via, upd, got))
                 continue
-            if got != m_hex:
-                bad_enc.append('%s: impl %s model %s' % (label, got[:120], m_hex[:120]))
+            want_model = bytes(m_oct_crc).hex() if upd else m_hex
+            if got != want_model:
+                bad_enc.append('%s: (via_payload=%s update_crc=%s) impl %s model %s' % (label, via, upd, got[:120], want_model[:120]))
         if bytes(m_oct_crc).hex() != m_hex and not probs:
-            bad_enc.append('%s: model-computed CRCs differ from the implementation\'s' % label)
+            bad_enc.append('%s: model-computed CRCs differ from the CRCs of the independent encoder' % label)
         if not m_flags[0]:
             bad_enc.append('%s: generated bundle is not wf_bundle in the model' % label)
         if mdec is None:
@@ -705,23 +736,39 @@ def replay(chk, path):
     sys.exit(0)
 
 
+def tick(chk, what):
+    if os.environ.get('C02_TIMING'):
+        import time
+        sys.stderr.write('[%7.1fs] %s\n' % (time.time() - chk.start, what))
+
+
 def main():
     chk = Check('C02', level='proof', description=__doc__)
     if chk.args.replay:
         replay(chk, chk.args.replay)
     chk.coq_props()
+    tick(chk, 'coq_props')
     pending = {}
     try:
         valid = gen_valid(chk)
         big = [(label, spec) for (label, spec) in valid if label == 'big']
         valid = [(label, spec) for (label, spec) in valid if label != 'big']
+        if os.environ.get('C02_LIMIT'):   # development aid only
+            valid = valid[::max(1, len(valid) // int(os.environ['C02_LIMIT']))]
+            big = big[:1]
+        tick(chk, 'generated')
         bad_big = big_suite(chk, big, pending)
+        tick(chk, 'big')
         (bad_enc, bad_dec, impl, _m) = run_streams(chk, valid, pending)
         bad_enc += bad_big
+        tick(chk, 'valid streams')
         bad_views = typed_view_suite(chk, valid, impl)
+        tick(chk, 'views')
         findings = gen_findings(chk)
         (fbad_enc, fbad_dec, _fimpl, _fm) = run_streams(chk, findings, pending)
+        tick(chk, 'findings')
         (n_mal, table) = malformed_suite(chk)
+        tick(chk, 'malformed')
     except CoqError as err:
         chk.obligation('correspondence:model-evaluation', False, str(err)[:1500])
         chk.finish(rule='model evaluation failed')
@@ -734,6 +781,7 @@ def main():
     chk.obligation('correspondence:defect classes reproduced by the faithful model (%d inputs outside the guard)' % len(findings),
                    not (fbad_enc or fbad_dec), '; '.join((fbad_enc + fbad_dec)[:3]))
     (n_fwd, n_sent) = agent_suite(chk)
+    tick(chk, 'agent')
     for (sig, (what, path)) in sorted(pending.items()):
         print('PENDING-FINDING: property=C02 %s -- %s (replay=%s)' % (sig, what[:300], path))
     chk.finish(
